@@ -11,6 +11,7 @@ Three monitors per generated program (and the first and third for every golden p
  (c) one forced extra pass changes neither the code file nor the symbol dump.
 """
 import os
+import random
 import re
 
 from .. import asl, corpus
@@ -42,7 +43,25 @@ def plan(tier, seed):
     cases += [{'prog': p} for p in corpus.names()]
     cases += [{'tail': i} for i in range(150 if tier == 'quick' else 3000)]
     cases += [{'edge': i} for i in range(150 if tier == 'quick' else 3000)]
+    # a setting statement appended as the very last statement of a golden program has nothing behind it to influence:
+    # assembled with one forced extra pass the code must equal that of the unmodified program
+    names = corpus.names()
+    trail = [(n, t) for n in names for t in range(len(TRAIL))]
+    if tier == 'quick':
+        rng = random.Random(seed * 104729 + 7)
+        trail = rng.sample(trail, 260)
+    cases += [{'trail': t, 'prog': n} for n, t in trail]
+    only = os.environ.get('VERIF_C01_ONLY')       # development aid
+    if only:
+        cases = [c for c in cases if only in c]
     return cases
+
+
+TRAIL = ['\t%s\t%s' % (n, v) for n in ('padding', 'maxmode', 'fpu', 'pmmu', 'fullpmmu', 'bigendian', 'wrapmode', 'srcmode', 'packing', 'lwordmode', 'extmode',
+                                       'dsp', 'compliterals', 'branchext', 'supmode', 'custom', 'dottedstructs', 'relaxed', 'z80syntax', 'compmode', 'planecode')
+         for v in ('on', 'off')] + ['\tz80syntax\texclusive', '\tradix\t8', '\toutradix\t2', '\tintsyntax\t+0oct', '\tintsyntax\t-0hex,+$hex', "\tcharset\t'a','z',1",
+                                   '\tcodepage\tzz1234', '\tmacexp_dft\tnoif,nomacro', '\tmacexp_ovr\ton', '\tlisting\toff', '\tprtinit\t"x"', '\tsave', '\tenum\tqq1,qq2']
+# (not in the list: PAGE - a machine instruction on SX20 -, PHASE and SEGMENT - they change the value of `END *`)
 
 
 # programs whose LAST statements change a setting that the FIRST statements depend on: one more pass must not see the setting
@@ -376,9 +395,71 @@ def sym_dump(trace):
     return d
 
 
+END_RE = re.compile(r'^\S*[ \t]+end(?:[ \t]+[^;]*)?(?:;.*)?$', re.I)
+
+
+def run_trail(case, ctx):
+    out = ctx.out
+    prog = corpus.Prog(case['prog'])
+    prog.stage(ctx.dir)
+    stmt = TRAIL[case['trail']]
+    src = prog.name + '.asm'
+    flags = list(prog.flags) + ['-i', corpus.include_dir()]
+    tag = '%s + trailing %r' % (prog.name, stmt.strip().replace('\t', ' '))
+    out.sample = {'trail': stmt.strip(), 'prog': prog.name}
+    text = prog.source().decode('latin-1')
+    lines = text.split('\n')
+    # in front of a final END statement, else at the very end
+    pos = len(lines)
+    for i in range(len(lines) - 1, max(-1, len(lines) - 30), -1):
+        if lines[i].strip() and not lines[i].lstrip().startswith(';'):
+            if END_RE.match(lines[i]):
+                pos = i
+            break
+    base = asl.assemble(ctx, src, flags, out='a.p', timeout=180)
+    if base.run.timed_out:
+        out.inconc('timeout')
+        return
+    if base.rc != 0 or base.p is None:
+        out.obs['trail_baseline_not_valid'] += 1
+        return
+    new = lines[:pos] + [stmt] + lines[pos:]
+    ctx.write('t_' + src, '\n'.join(new))
+    env = {'ASL_VERIF_EXTRA_PASSES': '1', 'ASL_VERIF_MAX_PASSES': str(PASS_CAP + 5)}
+    b = asl.assemble(ctx, 't_' + src, flags, out='b.p', extra_env=env, timeout=180)
+    if b.run.timed_out:
+        out.inconc('timeout')
+        return
+    if b.run.san:
+        out.violate(b.run.san, '%s: %s' % (tag, b.run.err.decode('latin-1')[-500:]))
+        return
+    # is the statement valid here at all?  (judged without the extra pass: it must be accepted on its own)
+    c = asl.assemble(ctx, 't_' + src, flags, out='c.p', timeout=180)
+    if c.rc != 0 or c.p is None:
+        out.obs['trail_statement_not_valid_for_target'] += 1
+        return
+    if c.p != base.p:
+        out.violate('trailing-setting-changes-code:' + stmt.split('\t')[1].upper(), '%s: code differs from the unmodified program (regular passes)' % tag)
+        return
+    if b.rc != 0 or b.p is None:
+        out.violate('extra-pass-fails:setting-survives-into-next-pass:' + stmt.split('\t')[1].upper(),
+                    '%s: with one more pass rc=%s %s' % (tag, b.rc, b.run.text()[-300:].replace('\n', ' | ')))
+        return
+    if b.p != base.p:
+        out.violate('extra-pass-changes-code:setting-survives-into-next-pass:' + stmt.split('\t')[1].upper(),
+                    '%s: code after one more pass differs from the unmodified program' % tag)
+        return
+    out.obs['trailing_settings_without_effect'] += 1
+    out.sets['trailing_statements'].add(stmt.split('\t')[1])
+    out.nontrivial = True
+    out.sig = ('trail', prog.name, case['trail'])
+
+
 def run_case(case, ctx):
     out = ctx.out
     env_cap = {'ASL_VERIF_MAX_PASSES': str(PASS_CAP)}
+    if 'trail' in case:
+        return run_trail(case, ctx)
     if 'prog' in case:
         prog = corpus.Prog(case['prog'])
         prog.stage(ctx.dir)
